@@ -249,6 +249,8 @@ def lf(k, i, s, ci=False):
     if k == 0:
         return None
     elif k == 1:
+        if ci:
+            return True if i > 0 else False      # concrete bool objects (float(symbolic bool) is modelled inexactly)
         return i > 0
     elif k == 2:
         return cint(i) if (ci or CI_ALL[0]) else i
@@ -349,3 +351,45 @@ def gvf(kt, f, vocab=('a', 'b', 'zz')):
 
 def crosshair_exc(e):
     return (type(e).__module__ or '').split('.')[0] in ('crosshair', 'z3')
+
+
+# ----------------------------------------------------------------------------- error-tree comparison (NaN-aware)
+
+def tree_eq(a, b):
+    """Structural equality of two pane error trees; `actual` values compared with eqv_loose-free eqv (NaN-aware)."""
+    from pane import errors as E
+    if a is None or b is None:
+        return a is None and b is None
+    if type(a) is not type(b):
+        return False
+    if isinstance(a, E.ProductErrorNode):
+        if a.expected != b.expected or not eqv(a.actual, b.actual):
+            return False
+        if set(a.missing) != set(b.missing) or set(a.extra) != set(b.extra):
+            return False
+        if len(a.children) != len(b.children):
+            return False
+        for k in a.children:
+            if k not in b.children or not tree_eq(a.children[k], b.children[k]):
+                return False
+        return True
+    if isinstance(a, E.SumErrorNode):
+        if len(a.children) != len(b.children):
+            return False
+        for (x, y) in zip(a.children, b.children):
+            if not tree_eq(x, y):
+                return False
+        return True
+    if isinstance(a, E.WrongTypeError):
+        return (a.expected == b.expected and eqv(a.actual, b.actual) and a.info == b.info
+                and (a.cause is None) == (b.cause is None)
+                and (a.cause is None or a._get_cause() == b._get_cause()))
+    if isinstance(a, E.WrongLenError):
+        return (a.expected == b.expected and a.expected_len == b.expected_len and eqv(a.actual, b.actual)
+                and a.actual_len == b.actual_len)
+    if isinstance(a, E.ConditionFailedError):
+        return (a.expected == b.expected and eqv(a.actual, b.actual) and a.condition == b.condition
+                and (a.cause is None) == (b.cause is None))
+    if isinstance(a, E.DuplicateKeyError):
+        return a.key == b.key and tuple(a.aliases) == tuple(b.aliases)
+    return a == b
